@@ -209,12 +209,15 @@ class SyncInterpreter(BaseInterpreter[TContext, TEvent]):
         self._is_processing = True
         try:
             self._enter_states([self.machine])
+            # 🔄 Settle immediate "always" transitions behind the same guard:
+            #    their entry actions may `raise` too, and outside the guard
+            #    such an event was processed re-entrantly, mid-transition.
+            #    Settling before draining also matches the async engine.
+            self._process_transient_transitions()
         finally:
             self._is_processing = False
-        # 📬 Drain anything an entry action raised during that descent.
+        # 📬 Drain anything raised while the initial configuration settled.
         self._process_event_queue()
-        # 🔄 Process any immediate "always" transitions upon startup.
-        self._process_transient_transitions()
 
         # Capture the post-transition state set after initialization
         post_states = set(self._active_state_nodes)
